@@ -234,10 +234,27 @@ where convOkL : List Ann → Bool
   | a :: as => convOk a && convOkL as
 
 /-- `_is_subtype(sub=value_class, super=a)` as used by `_instancecheck_type` -/
+def memberExact (c : ClsId) : Ann → Bool
+  | .cls d => c == d
+  | .clsF d _ _ => c == d
+  | _ => false
+/-- one member of a Union super type (repaired `_is_subtype`): a class by issubclass, Any is a top type, a typing generic by its
+    origin class (its arguments are not looked at), everything else (forward reference, NewType, Literal, PEP 585 alias) False -/
+def memberSub (env : Env) (c : ClsId) : Ann → Bool
+  | .cls d => env.sub c d
+  | .clsF d _ _ => env.sub c d
+  | .any => true
+  | .seq .typing o _ => env.sub c (env.seqCls o)
+  | .map .typing o _ _ => env.sub c (env.mapCls o)
+  | .tuple .typing _ => env.sub c env.tupleCls
+  | .tupleVar .typing _ => env.sub c env.tupleCls
+  | .typeOf .typing _ => env.sub c env.typeCls
+  | _ => false
 def isSubtypeCls (env : Env) (c : ClsId) : Ann → Raw
   | .cls d => .ok (env.sub c d)
   | .clsF d _ _ => .ok (env.sub c d)
-  | .union _ ms => .ok (ms.any (fun m => match m with | .cls d => c == d | .clsF d _ _ => c == d | _ => false))   -- exact membership
+  | .union _ ms => .ok (if unionSuperBySubtype then ms.any (memberSub env c) else ms.any (memberExact c))
+  | .fwd _ => if classOfGuardsOrigin then .ok false else .raisedOther     -- issubclass(c, ForwardRef(..)): TypeError, caught
   | _ => .raisedOther
 
 def lookupField (names : List NameId) (xs : List Val) (k : NameId) : Option Val :=
